@@ -248,7 +248,87 @@ def registry_hook():
     return bad
 
 
+def reentrant():
+    """hooks that themselves adapt something (nested adaptation reaching the hook stage) before declining: the remaining hooks
+    of the OUTER call must still run as hook(I, obj) with the outer arguments, in list order"""
+    bad = []
+
+    class IA(Interface):
+        pass
+
+    class IJ(Interface):
+        pass
+
+    class O:
+        pass
+    try:
+        for nested in ('alternate', 'hook-value', 'type-error', 'twice'):
+            log = []
+            inner = O()
+
+            def h1(iface, obj):
+                log.append(('h1', iface, obj))
+                if iface is IA:
+                    for _ in range(2 if nested == 'twice' else 1):
+                        try:
+                            IJ(inner) if nested == 'type-error' else IJ(inner, 'alt')
+                        except TypeError:
+                            pass
+                return None
+
+            def h2(iface, obj):
+                log.append(('h2', iface, obj))
+                if iface is IJ:
+                    return 'j-value' if nested == 'hook-value' else None
+                return 'h2-value'
+
+            def h3(iface, obj):
+                log.append(('h3', iface, obj))
+                return None
+            adapter_hooks[:] = [h1, h2, h3]
+            o = O()
+            res = IA(o, 'ALT')
+            outer = [e for e in log if e[1] is not IJ]
+            if res != 'h2-value' or len(outer) != 2 or outer[0] != ('h1', IA, o) or outer[1][0] != 'h2' or outer[1][1] is not IA or outer[1][2] is not o:
+                bad.append(('reentrant-hooks:' + nested, 'outer adaptation with a first hook that adapts something else (%s) and declines: result %r, outer hook '
+                            'calls %r; expected h1(IA, obj) then h2(IA, obj) -> \'h2-value\'' % (nested, res, [(e[0], getattr(e[1], '__name__', e[1]), type(e[2]).__name__) for e in outer])))
+            if any(e[1] is IJ and e[2] is not inner for e in log):
+                bad.append(('reentrant-hooks-inner:' + nested, 'a hook of the nested adaptation was not called with the nested arguments'))
+        # registries as hooks: the first registry's factory adapts something else and declines; the second has an adapter
+        r1, r2 = AdapterRegistry(), AdapterRegistry()
+
+        @implementer(IA)
+        class K:
+            pass
+
+        class IB(Interface):
+            pass
+
+        def declining(ob):
+            IJ(O(), None)
+            return None
+        r1.register([IA], IB, '', declining)
+        r2.register([IA], IB, '', lambda ob: ('second', ob))
+        adapter_hooks[:] = [r1.adapter_hook, r2.adapter_hook]
+        k = K()
+        try:
+            got = IB(k)
+        except TypeError as e:
+            got = 'TypeError%r' % (e.args[:1],)
+        if got != r2.queryAdapter(k, IB):
+            bad.append(('reentrant-registry-hooks', 'I(obj) with two registries installed (the first one\'s factory adapts something else and returns None) is %r, '
+                        'second.queryAdapter(obj, I) is %r' % (got, r2.queryAdapter(k, IB))))
+    finally:
+        adapter_hooks[:] = []
+    return bad
+
+
 def replay(*args):
+    if args == ('reentrant',):
+        bad = reentrant()
+        for sig, what in bad:
+            print('violated:', sig, what)
+        sys.exit(1 if bad else 0)
     bad = (sequences() if args == ('sequences',) else one(*args)) if args else registry_hook()
     for sig, what in bad:
         print('violated:', sig, what)
@@ -256,7 +336,7 @@ def replay(*args):
 
 
 def run(ctx):
-    ctx.rule = ('adaptation sequences through one interface over objects of one class that acquire/lose __conform__ between calls; full product: __conform__ in %r x provided x hook lists of length <=2 over %r x alternate x custom __adapt__ in %r; '
+    ctx.rule = ('hooks that re-enter adaptation before declining (nested calls reaching the hook stage; registries as hooks); adaptation sequences through one interface over objects of one class that acquire/lose __conform__ between calls; full product: __conform__ in %r x provided x hook lists of length <=2 over %r x alternate x custom __adapt__ in %r; '
                 'custom __adapt__ defined on the interface itself or inherited from a base interface (with/without other interface methods); __conform__ found on the class, in the instance dictionary, in a slot, through __getattr__ or on a base class; '
                 'result/exception and the exact sequence of executed steps compared with the decision list of the statement; '
                 'distinct = points of the product' % (CONFORM, HOOK, CUSTOM))
@@ -289,6 +369,9 @@ def run(ctx):
     ctx.case('sequences')
     for sig, what in sequences():
         ctx.violation(sig, what, 'from falsify.C14 import replay\nreplay("sequences")\n')
+    ctx.case('reentrant')
+    for sig, what in reentrant():
+        ctx.violation(sig, what, 'from falsify.C14 import replay\nreplay("reentrant")\n')
     ctx.case('registry-hook')
     for sig, what in registry_hook():
         ctx.violation(sig, what, 'from falsify.C14 import replay\nreplay()\n')
